@@ -111,6 +111,13 @@ impl OutstationTask {
     }
 
     /// process received outstation messages while idle without a session
+    /// clean up after a session whose `run` future was dropped instead of running to its end
+    pub(crate) fn abandon_session(&mut self) {
+        self.session.end_session(&mut self.database);
+        self.reader.reset();
+        self.writer.reset();
+    }
+
     pub(crate) async fn process_next_message(&mut self) -> Result<(), StopReason> {
         self.session.process_next_message().await
     }
